@@ -419,10 +419,10 @@ Section Frame.
   Qed.
 
   Lemma ObjFr_trans E ex m1 m2 m3 o x1 x2 x3 :
-    st_collecting m2 = st_collecting m1 ->
+    st_collecting m2 = st_collecting m1 -> (inD m1 o = true -> inD m2 o = true) ->
     ObjFr E ex m1 m2 o x1 x2 -> ObjFr E ex m2 m3 o x2 x3 -> ObjFr E ex m1 m3 o x1 x3.
   Proof.
-    intros Hc A B. split.
+    intros Hc Hdd A B. split.
     - rewrite (of_cls _ _ _ _ _ _ _ B). apply A.
     - rewrite (of_ismap _ _ _ _ _ _ _ B). apply A.
     - rewrite (of_nf _ _ _ _ _ _ _ B). apply A.
@@ -434,6 +434,13 @@ Section Frame.
       destruct (of_dropping _ _ _ _ _ _ _ B A1 Hex) as (B1 & B2 & B3 & B4 & B5).
       repeat split; try congruence. auto.
     - intros Hex Hv. apply A; [exact Hex|]. apply B; assumption.
+    - intros Hex Hv Hb. destruct (of_uninit _ _ _ _ _ _ _ A Hex Hv Hb) as (Hv2 & Hb2 & U1 & U2 & U3).
+      destruct (of_uninit _ _ _ _ _ _ _ B Hex Hv2 Hb2) as (Hv3 & Hb3 & V1 & V2 & V3). repeat split; congruence.
+    - intros Hv. apply A, B, Hv.
+    - intros Hi Hex Hv3.
+      destruct (of_dead _ _ _ _ _ _ _ B (Hdd Hi) Hex Hv3) as [B1 B2].
+      destruct (of_dead _ _ _ _ _ _ _ A Hi Hex) as [A1 A2]; [|split; congruence].
+      intros Hv2. apply Hv3. apply B, Hv2.
     - intros Hm Hb3. apply (of_unmarked _ _ _ _ _ _ _ B); [|exact Hb3].
       apply (of_unmarked _ _ _ _ _ _ _ A); [exact Hm|].
       intros Hb2. apply Hb3. apply B, Hb2.
@@ -448,9 +455,11 @@ Section Frame.
 
   Lemma Fr_trans E ex m1 m2 m3 : Fr K E ex m1 m2 -> Fr K E ex m2 m3 -> Fr K E ex m1 m3.
   Proof.
-    intros [A1 A2 A3 A4] [B1 B2 B3 B4]. split.
+    intros [A1 Aw A2 Ac A3 A4] [B1 Bw B2 Bc B3 B4]. split.
+    - congruence.
     - congruence.
     - auto.
+    - intros Hc o Hi. apply (Ac Hc), Bc; [congruence | exact Hi].
     - intros o x1 H1. destruct (A3 o x1 H1) as (x2 & H2 & F12). destruct (B3 o x2 H2) as (x3 & H3 & F23).
       exists x3. split; [exact H3|]. eapply ObjFr_trans; eauto.
     - intros Hk o x3 H3 Hi Hb Hd. destruct (B4 Hk o x3 H3 Hi Hb Hd) as (x2 & H2 & Hi2 & Hb2 & Hd2).
@@ -462,10 +471,10 @@ Section Frame.
     (forall o, (cnt_id o E' <= cnt_id o E)%nat) -> (ex = None \/ ex' = ex) ->
     Fr K E ex m m' -> Fr K E' ex' m m'.
   Proof.
-    intros HE Hex [A1 A2 A3 A4]. split; auto.
+    intros HE Hex [A1 Aw A2 Ac A3 A4]. split; auto.
     intros o x Hx. destruct (A3 o x Hx) as (x' & Hx' & F). exists x'. split; [exact Hx'|].
     assert (Hne : ex' <> Some o -> ex <> Some o) by (destruct Hex as [->| ->]; [discriminate | auto]).
-    destruct F as [F1 F2 F3 F4 F5 F6 F7 F8 F8' F9 F10]. split; auto.
+    destruct F as [F1 F2 F3 F4 F5 F6 F7 F8 F8' F8'' Fn Fd F9 F10]. split; auto.
     intros Hx2 Hb Hp. apply F10; auto.
     destruct Hp as [Hp|Hp]; [left; specialize (HE o); lia | right; exact Hp].
   Qed.
@@ -490,17 +499,19 @@ Section Frame.
   (** one-object update *)
   Lemma Fr_alter E ex m m' a f :
     heap m' = alter f a (heap m) -> dead m' = dead m -> st_collecting m' = st_collecting m ->
+    wparam m' = wparam m ->
     (forall x, get m a = Some x -> ObjFr E ex m m' a x (f x)) ->
     (k_weak K = true -> forall x, get m a = Some x -> inD m a = true -> o_box (f x) = BAlloc ->
        is_dropped (o_hdr (f x)) = false -> o_box x = BAlloc /\ is_dropped (o_hdr x) = false) ->
     Fr K E ex m m'.
   Proof.
-    intros Hh Hd Hc HA HU.
+    intros Hh Hd Hc Hwp HA HU.
     assert (Hget : forall o, get m' o = if decide (a = o) then f <$> get m o else get m o)
       by (intros; apply get_alter, Hh).
     assert (HD : forall o, inD m' o = inD m o) by (intros; apply inD_eq, Hd).
     split; auto.
     - intros o. rewrite HD. auto.
+    - intros _ o. rewrite HD. auto.
     - intros o x Hx. rewrite Hget. destruct (decide (a = o)) as [->|Hne].
       + rewrite Hx. cbn. eauto.
       + exists x. split; [exact Hx|]. apply ObjFr_refl. intros o'. rewrite HD. auto.
@@ -515,12 +526,14 @@ Section Frame.
   Lemma ObjFr_hs E ex m m' a x x' :
     (forall o, inD m' o = true -> inD m o = true) ->
     o_cls x' = o_cls x -> o_ismap x' = o_ismap x -> o_fields x' = o_fields x -> o_cleaner x' = o_cleaner x ->
+    o_wfields x' = o_wfields x ->
     o_vst x' = o_vst x -> o_box x' = o_box x -> (o_box x <> BNotYet \/ o_vst x = VDropping) ->
     (marked x = false -> marked x' = false) -> (marked x = true -> h_mark (o_hdr x') = h_mark (o_hdr x)) ->
     ObjFr E ex m m' a x x'.
   Proof.
-    intros Hd H1 H2 H3 H4 H5 H6 H7 H8 H9. split; try congruence; auto; try (intros; destruct H7; congruence).
+    intros Hd H1 H2 H3 H4 Hw H5 H6 H7 H8 H9. split; try congruence; auto; try (intros; destruct H7; congruence).
     - intros Hv _. repeat split; auto; congruence.
+    - intros _ Hv Hb. repeat split; congruence.
     - intros _ Hb _. repeat split; auto; congruence.
   Qed.
 End Frame.
@@ -666,7 +679,7 @@ Section HS.
   Lemma Fr_ieq E ex m m' : ieq m m' -> Fr K E ex m m'.
   Proof.
     intros (Hh & (Hs & Hb & Hws & Hwp & Hcs & Hv & Hpc & Hd & Hal & Hcol) & Hsd).
-    eapply (Fr_alter K E ex m m' 0%nat (fun x => x)); [| exact Hd | exact Hcol | |].
+    eapply (Fr_alter K E ex m m' 0%nat (fun x => x)); [| exact Hd | exact Hcol | exact Hwp | |].
     - rewrite alter_id_eq. exact Hh.
     - intros x Hx. apply ObjFr_refl. intros o. rewrite (inD_eq _ _ _ Hd). auto.
     - intros _ x Hx Hi Hb' Hdr. auto.
@@ -675,15 +688,15 @@ Section HS.
   Lemma Fr_hs E ex m m' a f x :
     get m a = Some x -> heap m' = alter f a (heap m) -> ext_eq m m' ->
     o_cls (f x) = o_cls x -> o_vst (f x) = o_vst x -> o_box (f x) = o_box x -> o_ismap (f x) = o_ismap x ->
-    o_fields (f x) = o_fields x -> o_cleaner (f x) = o_cleaner x ->
+    o_fields (f x) = o_fields x -> o_cleaner (f x) = o_cleaner x -> o_wfields (f x) = o_wfields x ->
     (o_box x <> BNotYet \/ o_vst x = VDropping) ->
     (marked x = false -> marked (f x) = false) ->
     (marked x = true -> h_mark (o_hdr (f x)) = h_mark (o_hdr x)) ->
     (k_weak K = true -> inD m a = true -> is_dropped (o_hdr (f x)) = false -> is_dropped (o_hdr x) = false) ->
     Fr K E ex m m'.
   Proof.
-    intros Hx Hh (Hs & Hb & Hws & Hwp & Hcs & Hv & Hpc & Hd & Hal & Hcol) Fc Fv Fb Fm Ff Fcl Hny Hm1 Hm2 Hdr.
-    eapply (Fr_alter K E ex m m' a f); [exact Hh | exact Hd | exact Hcol | |].
+    intros Hx Hh (Hs & Hb & Hws & Hwp & Hcs & Hv & Hpc & Hd & Hal & Hcol) Fc Fv Fb Fm Ff Fcl Fwf Hny Hm1 Hm2 Hdr.
+    eapply (Fr_alter K E ex m m' a f); [exact Hh | exact Hd | exact Hcol | exact Hwp | |].
     - intros y Hy. assert (y = x) by congruence. subst y.
       apply ObjFr_hs; auto. intros o. rewrite (inD_eq _ _ _ Hd). auto.
     - intros Hk y Hy Hi Hb' Hdr'. assert (y = x) by congruence. subst y. split; [congruence | auto].
